@@ -24,10 +24,10 @@ def merge(reads_per_file, reads_per_enc_file=None, per_scenario=40):
     histories of a file are sub-sampled (seeded) to `reads_per_file` in the quick tier."""
     def post(scs, seed, tier):
         rnd = random.Random(seed * 131 + 17)
-        out, groups = [], {}
+        out, other, groups = [], [], {}
         for s in scs:
             if s["par"].get("kind") != "file":
-                out.append(s)
+                other.append(s)
                 continue
             g = groups.setdefault(json.dumps(s["par"], sort_keys=True), dict(par=s["par"], ups=[], reads=[]))
             (g["ups"] if s["ops"][0]["op"] == "upload" else g["reads"]).append(s["ops"])
@@ -63,7 +63,7 @@ def merge(reads_per_file, reads_per_enc_file=None, per_scenario=40):
                 reads = reads[per_scenario:]
                 out.append(dict(par=g["par"], ops=ops, src="merged"))
                 k += 1
-        return out
+        return out + other
     return post
 
 
